@@ -62,7 +62,9 @@ var freeROMs = []string{
 
 func randomWorkload(r *engine.Rand) workload {
 	w := workload{Seed: r.U64(), Audio: r.Chance(1, 2), Video: r.Chance(2, 3)}
-	switch r.Intn(8) {
+	switch r.Intn(9) {
+	case 8:
+		w.Kind = "scene-lcdoff" // a scene whose LCD is switched off for good: the picture is whatever was there
 	case 7:
 		w.Kind = "irq"
 	case 0, 1:
@@ -120,6 +122,15 @@ func newFree(w workload, chanCap int, res *engine.Result) *machine.Machine {
 	}
 	m.GuardUndefined = true
 	r := engine.NewRand(w.Seed)
+	lcdOffScene := false
+	if w.Kind == "scene-lcdoff" {
+		w.Kind, lcdOffScene = "scene", true
+	}
+	defer func() {
+		if lcdOffScene && m != nil {
+			m.Write(0xff40, 0x00)
+		}
+	}()
 	switch w.Kind {
 	case "scene":
 		// LCD off while video memory is filled, then a random but stable scene
@@ -219,6 +230,9 @@ func newFree(w workload, chanCap int, res *engine.Result) *machine.Machine {
 			}
 			if r.Chance(1, 4) {
 				code = append(code, engine.Pick(r, []uint8{0xf3, 0xfb, 0xfb}))
+			}
+			if r.Chance(1, 5) {
+				code = append(code, 0xfb, 0x00, 0x76, 0x00) // EI ; NOP ; HALT: woken by the timer or the LCD
 			}
 		}
 		code = append(code, 0xfb, 0xc3, 0x0c, 0xc0) // EI ; JP back to the first request
